@@ -654,7 +654,14 @@ fn m_c49_limits(shard: &mut Shard, obs: &Obs, commit: &CommitResult, touched: &[
     shard.count("c49:commits_checked");
     let d = |what: String| detail(obs.meta, json!({"what": what, "limits": format!("{:?}", lim)}));
     if commit.application_events.len() > lim.max_number_of_events {
-        shard.violation_for("C49", "committed-more-events-than-limit", d(format!("{} events", commit.application_events.len())));
+        // events appended by fee finalization (royalty deposits, PayFee, reward deposit, XRD burn) form a suffix
+        let tail = commit.application_events.iter().rev().take_while(|(id, _)| matches!(id.1.as_str(), "PayFeeEvent" | "DepositEvent" | "BurnFungibleResourceEvent")).count();
+        let sig = if commit.application_events.len() - tail <= lim.max_number_of_events {
+            "committed-more-events-than-limit:only-by-fee-finalization-events"
+        } else {
+            "committed-more-events-than-limit"
+        };
+        shard.violation_for("C49", sig, d(format!("{} events ({} of them in the fee-finalization tail)", commit.application_events.len(), tail)));
     }
     for (_, data) in &commit.application_events {
         if data.len() > lim.max_event_size {
